@@ -66,5 +66,9 @@ def reindex(ctx, norders=3):
 def extra_jobs(tier):
     from symx.run import Job
     n = 3 if tier == "quick" else 4
-    return [Job("reindex inductive step %d orders" % n, "reindex", dict(norders=n), max_paths=2000000, split=200,
-                validate_every=200, sample_every=400)]
+    # two orders competing for one bar's limited liquidity (fill-or-kill orders must still be closed by their first bar)
+    ps = [dict(plan="pair", depth=2, bp=0, qp=2, liq="vsi", vols=["0", "10"], namounts=2, kinds=["limit"],
+               second="fok")]
+    return hist.jobs_for(PROPS, ps) + [
+        Job("reindex inductive step %d orders" % n, "reindex", dict(norders=n), max_paths=2000000, split=200,
+            validate_every=200, sample_every=400)]
